@@ -82,12 +82,21 @@ type fieldNode struct {
 }
 
 var (
-	timeT = reflect.TypeFor[time.Time]()
-	durT  = reflect.TypeFor[time.Duration]()
+	timeT      = reflect.TypeFor[time.Time]()
+	durT       = reflect.TypeFor[time.Duration]()
+	fileT      = reflect.TypeFor[*binding.File]()
+	fileSliceT = reflect.TypeFor[[]*binding.File]()
 )
+
+// file fields (*binding.File, []*binding.File) are filled from multipart forms only; every source of this harness
+// leaves them alone. The Ty term presents them as fields the bind does not see (exported = 0, a string leaf that
+// renders "" for nil), so the oracle's frame rule applies: exactly as before the bind.
+func isFileT(t reflect.Type) bool { return t == fileT || t == fileSliceT }
 
 func describe(t reflect.Type) *tyNode {
 	switch {
+	case isFileT(t):
+		return &tyNode{K: 'P', Prim: "s"}
 	case t == timeT:
 		return &tyNode{K: 'P', Prim: "t"}
 	case t == durT:
@@ -125,7 +134,7 @@ func describe(t reflect.Type) *tyNode {
 		n := &tyNode{K: 'T'}
 		for i := 0; i < t.NumField(); i++ {
 			f := t.Field(i)
-			fn := fieldNode{Name: f.Name, Exported: f.IsExported(), Anon: f.Anonymous, Dflt: f.Tag.Get("default"), Ty: describe(f.Type)}
+			fn := fieldNode{Name: f.Name, Exported: f.IsExported() && !isFileT(f.Type), Anon: f.Anonymous, Dflt: f.Tag.Get("default"), Ty: describe(f.Type)}
 			for k, tg := range tagNames {
 				fn.Tags[k] = f.Tag.Get(tg)
 			}
@@ -286,10 +295,11 @@ type corpusType struct {
 }
 
 var types []*corpusType
-var reqTypes []*corpusType   // the request-shaped part of the corpus (gen_types.py ReqGen)
-var namedTypes []*corpusType // the types over defined scalar types (gen_types.py NamedGen)
-var timeTypes []*corpusType  // types with a time.Time leaf
-var opqCorpus []*corpusType  // the types with opaque leaf kinds (gen_types.py OpqGen)
+var reqTypes []*corpusType    // the request-shaped part of the corpus (gen_types.py ReqGen)
+var namedTypes []*corpusType  // the types over defined scalar types (gen_types.py NamedGen)
+var timeTypes []*corpusType   // types with a time.Time leaf
+var opqCorpus []*corpusType   // the types with opaque leaf kinds (gen_types.py OpqGen)
+var uploadTypes []*corpusType // the types with file fields (gen_types.py UploadGen)
 var typeByName = map[string]*corpusType{}
 
 func collectOpq(n *tyNode, out *[]int) {
@@ -356,6 +366,8 @@ func loadCorpus() {
 			}
 		}
 		switch {
+		case i >= 640:
+			uploadTypes = append(uploadTypes, ct)
 		case i >= 600:
 			bodyTypes = append(bodyTypes, ct)
 		case i >= 540:
@@ -423,6 +435,9 @@ type caseT struct {
 	CallConvs     []int     `json:",omitempty"` // entry B through a Binder: converters registered per call
 	WarmCallConvs []int     `json:",omitempty"` // the per-call converters of the earlier request
 	HasWarmCall   bool      `json:",omitempty"`
+	EvB           int       `json:",omitempty"` // event hooks registered with the options of the call / of the Binder (bit 0 FieldBound, 1 UnknownField, 2 Done)
+	HasEvC        bool      `json:",omitempty"` // entry B through a Binder: a per-call WithEvents …
+	EvC           int       `json:",omitempty"` // … with these hooks
 	AllErrors     bool      `json:",omitempty"` // WithAllErrors (with the options of the call / of the Binder)
 	Conc          int       `json:",omitempty"` // > 1: the bind is made from this many goroutines at once (first binds of a type)
 	Body          *bodyCase `json:",omitempty"` // entry J (body.go)
@@ -588,6 +603,7 @@ func genCase(r *hx.Rand) caseT {
 			// nothing of this type has been bound in this process yet: several goroutines at once, no earlier request
 			c.Conc = 4
 			c.HasWarm, c.Warm, c.WarmS = false, nil, nil
+			c.EvB, c.HasEvC, c.EvC = 0, false, 0
 		}
 	}
 	firstSeen[c.T] = true
@@ -604,6 +620,9 @@ func genCase1(r *hx.Rand) caseT {
 	}
 	if len(opqCorpus) > 0 && r.Chance(1, 8) {
 		ct = hx.Pick(r, opqCorpus)
+	}
+	if len(uploadTypes) > 0 && r.Chance(1, 16) {
+		ct = hx.Pick(r, uploadTypes)
 	}
 	c := caseT{T: ct.E.Name, Tag: r.Intn(5), Opts: genOpts(r)}
 	forceWarm := false
@@ -675,11 +694,22 @@ func genCase1(r *hx.Rand) caseT {
 		}
 	}
 	c.AllErrors = r.Chance(1, 6)
+	if r.Chance(1, 5) {
+		// event hooks: with the options of the call / of the Binder; per call on top of a Binder's (another hook set)
+		c.EvB = r.Intn(8)
+		if r.Chance(1, 2) && c.Entry != "A" {
+			c.Entry, c.Binder = "B", true
+		}
+		if c.Binder && c.Entry == "B" && r.Chance(2, 3) {
+			c.HasEvC, c.EvC = true, r.Intn(8)
+		}
+	}
 	convHint = len(c.Convs)+len(c.CallConvs) > 0
 	defer func() { convHint = false }()
 	if c.Entry == "B" && r.Chance(1, 4) {
 		c.Convs, c.CallConvs, c.WarmCallConvs, c.HasWarmCall = nil, nil, nil, false
 		c.AllErrors = false // bindInternal hands no options to these sources
+		c.EvB, c.HasEvC, c.EvC = 0, false, 0
 		convHint = false
 		// app.Context.BindOnly: path, query, header, cookie of one request, in that order
 		c.Entry = "A"
@@ -899,6 +929,20 @@ func genSrc(r *hx.Rand, sh *shape, tagKind int, opts optsT, ntFlag *bool, pPrese
 					}
 				}
 			case m < 11:
+				if r.Chance(1, 3) {
+					// both notations for one map in one request: the dotted / bracketed keys count, the JSON object
+					// under the bare key does not (and the size limit holds for what the field ends up with)
+					for i, n := 0, r.Range(1, 3); i < n; i++ {
+						v, nt := genValue(r, lf.Prim)
+						c.NT = c.NT || nt
+						mk := hx.Pick(r, []string{"a", "b", "q", "k1"}) + strconv.Itoa(i)
+						if r.Chance(1, 2) {
+							add(full+"."+mk, v)
+						} else {
+							add(full+"["+mk+"]", v)
+						}
+					}
+				}
 				// JSON-object notation under the bare key (documents of 1..4 entries, so that small
 				// map-size limits are exceeded; all-string documents for string-valued maps)
 				docs := []string{`{"a":1,"b":2}`, `{"a":"x"}`, `{"k":true,"z":1.5}`, `{"a":300}`, `{bad`, `[1,2]`, ``, `{"n":null}`, `{"o":{"p":1}}`,
@@ -1059,6 +1103,8 @@ func prefill(r *hx.Rand, v reflect.Value) {
 	}
 	t := v.Type()
 	switch {
+	case isFileT(t):
+		return
 	case t == timeT:
 		if r.Chance(1, 2) {
 			v.Set(reflect.ValueOf(hx.Pick(r, prefillTimes)))
@@ -1137,6 +1183,13 @@ func readable(v reflect.Value) reflect.Value {
 func render(v reflect.Value, l *hx.Line) {
 	t := v.Type()
 	switch {
+	case isFileT(t):
+		if v.IsNil() {
+			l.Tok("s").Str("")
+		} else {
+			l.Tok("s").Str("file")
+		}
+		return
 	case t == timeT:
 		l.Tok("t").Str(readable(v).Interface().(time.Time).Format(time.RFC3339Nano))
 		return
@@ -1396,6 +1449,9 @@ func run(ct *corpusType, c *caseT, s *srcT, dest any) (res any, err error, panic
 	if c.AllErrors {
 		o = append(o, binding.WithAllErrors())
 	}
+	if c.EvB != 0 {
+		o = append(o, eventsOption(c.EvB, &evB))
+	}
 	if c.Binder {
 		return runBinder(ct, c, s, dest)
 	}
@@ -1508,14 +1564,17 @@ func runApp(c *caseT, dest any, again func() any) (srcs []*srcT, tags []int, err
 // binders are reusable: one per option set for the whole run (as an application would keep them)
 var binders = map[string]*binding.Binder{}
 
-func binderFor(o optsT, convs []int, all bool) *binding.Binder {
-	k := fmt.Sprintf("%+v %v %v", o, convs, all)
+func binderFor(o optsT, convs []int, all bool, ev int) *binding.Binder {
+	k := fmt.Sprintf("%+v %v %v %d", o, convs, all, ev)
 	if b, ok := binders[k]; ok {
 		return b
 	}
 	bo := append(o.options(), convOptions(convs)...)
 	if all {
 		bo = append(bo, binding.WithAllErrors())
+	}
+	if ev != 0 {
+		bo = append(bo, eventsOption(ev, &evB)) // the hooks count into the counters of the running case
 	}
 	b, err := binding.New(bo...)
 	if err != nil {
@@ -1548,7 +1607,7 @@ func fromOptions(c *caseT) []binding.Option {
 // runBinder: the same binds through a Binder object — QueryWith[T] … / Binder.QueryTo … for one source,
 // BindWith[T] / Binder.BindTo (config cloned per call, per-call options on top) for several.
 func runBinder(ct *corpusType, c *caseT, s *srcT, dest any) (res any, err error, panicked bool) {
-	b := binderFor(c.Opts, c.Convs, c.AllErrors)
+	b := binderFor(c.Opts, c.Convs, c.AllErrors, c.EvB)
 	switch c.Entry {
 	case "B":
 		from := fromOptions(c)
@@ -1556,6 +1615,9 @@ func runBinder(ct *corpusType, c *caseT, s *srcT, dest any) (res any, err error,
 			from = append(from, c.Call.options()...)
 		}
 		from = append(from, convOptions(c.CallConvs)...)
+		if c.HasEvC {
+			from = append(from, eventsOption(c.EvC, &evC))
+		}
 		if c.Gen {
 			res, err = ct.E.BindWith(b, from...)
 			return
@@ -1653,6 +1715,12 @@ func emit(id string, c caseT, st *hx.Stats) string {
 		convIDs = append(convIDs, e[1])
 	}
 	l.Bool(c.AllErrors)
+	if c.Binder && c.Entry == "B" && c.HasEvC {
+		l.Nat(c.EvB).Nat(c.EvC)
+	} else {
+		l.Nat(c.EvB).Tok("-1")
+	}
+	l.Bool(c.Binder)
 	ct.Node.tokens(l)
 	l.Tok(strings.TrimSpace(il.String()))
 	// source(s) as the model sees them
@@ -1729,6 +1797,7 @@ func emit(id string, c caseT, st *hx.Stats) string {
 	var err error
 	var panicked bool
 	var others []concOut
+	evB, evC = evCount{}, evCount{}
 	switch {
 	case c.Entry == "A":
 		res, err, panicked = dest, appErr, appPanicked
@@ -1772,9 +1841,11 @@ func emit(id string, c caseT, st *hx.Stats) string {
 	for i, o := range others {
 		ol := hx.NewLine(fmt.Sprintf("%s-g%d", id, i+1)).Tok(strings.TrimSpace(in[len(id):]))
 		writeObs(ol, o.res, o.err, o.panicked)
+		writeEvents(ol)
 		more += "\n" + ol.String() + hx.Comment(c)
 	}
 	writeObs(l, res, err, panicked)
+	writeEvents(l)
 	if st != nil {
 		sh := ct.Shapes[c.Tag]
 		st.Case(in[len(id):], (sh.EmbedDepth >= 2 || sh.HasPSM) && c.NT)
@@ -1837,7 +1908,7 @@ type concOut struct {
 // destination. While it runs, the UnmarshalText of the corpus's own types is slow (application code may be).
 func runConcurrent(ct *corpusType, c *caseT, s *srcT) []concOut {
 	if c.Binder {
-		binderFor(c.Opts, c.Convs, c.AllErrors)
+		binderFor(c.Opts, c.Convs, c.AllErrors, c.EvB)
 	}
 	if c.Opts.Layouts != nil {
 		appLayouts(c.Opts.Layouts)
@@ -1902,6 +1973,14 @@ func fixedCases() []caseT {
 			if v, ok := want[lf.Prim]; ok && lf.Kind == "prim" && !done[lf.Prim] && !lf.Nested {
 				done[lf.Prim] = true
 				out = append(out, caseT{T: ct.E.Name, Tag: 0, Entry: "G", Opts: optsT{-1, -1, -1, false, false, nil}, Src: [][2]string{{lf.Keys[0], v}}, NT: true})
+				if lf.Prim == "i8" {
+					// event hooks: a Binder with a FieldBound hook and a per-call WithEvents without one (and the other way
+					// round); a package-level call with all three hooks
+					one := []srcCase{{Tag: 0, KV: [][2]string{{lf.Keys[0], "5"}}}}
+					out = append(out, caseT{T: ct.E.Name, Tag: 0, Entry: "B", Binder: true, Opts: optsT{-1, -1, -1, false, false, nil}, Srcs: one, NT: true, EvB: 1, HasEvC: true, EvC: 4})
+					out = append(out, caseT{T: ct.E.Name, Tag: 0, Entry: "B", Binder: true, Gen: true, Opts: optsT{-1, -1, 9, false, false, nil}, Srcs: one, NT: true, EvB: 0, HasEvC: true, EvC: 1})
+					out = append(out, caseT{T: ct.E.Name, Tag: 0, Entry: "T", Opts: optsT{-1, -1, -1, false, false, nil}, Src: one[0].KV, NT: true, EvB: 7})
+				}
 			}
 		}
 	}
@@ -1979,6 +2058,9 @@ func fixedCases() []caseT {
 		for _, lf := range ct.Shapes[0].Leaves {
 			if lf.Kind == "map" && lf.Prim == "s" && !lf.Nested {
 				out = append(out, caseT{T: ct.E.Name, Tag: 0, Entry: "G", Opts: optsT{-1, -1, 1, false, false, nil}, Src: [][2]string{{lf.Keys[0], `{"a":"x","b":"y"}`}}, NT: true})
+				// both notations in one request, each within the limit of 2: the dotted key counts alone
+				out = append(out, caseT{T: ct.E.Name, Tag: 0, Entry: "G", Opts: optsT{-1, -1, 2, false, false, nil}, NT: true,
+					Src: [][2]string{{lf.Keys[0], `{"a":"x","b":"y"}`}, {lf.Keys[0] + ".c", "z"}}})
 				found = true
 				break
 			}
@@ -2063,6 +2145,13 @@ func fixedCases() []caseT {
 		}
 	}
 	out = append(out, fixedBodyCases()...)
+	// file fields at the top level and inside nested structs, bound from sources that carry no files
+	for i, ct := range uploadTypes {
+		if i < 4 {
+			out = append(out, caseT{T: ct.E.Name, Tag: 2, Entry: "G", Opts: optsT{-1, -1, -1, false, false, nil}, NT: true})
+			out = append(out, caseT{T: ct.E.Name, Entry: "B", Opts: optsT{-1, -1, -1, false, false, nil}, NT: true, Srcs: []srcCase{{Tag: 0}, {Tag: 2}}})
+		}
+	}
 	// K04e: pointer to slice with a value; K04g: an empty map field under WithMaxMapSize(3);
 	// K04f: a map field of a nested struct addressed with dot notation
 	var e, g, f bool
